@@ -227,6 +227,8 @@ func realize(node map[string]json.RawMessage) []byte {
 	case node["sha256"] != nil:
 		h := sha256.Sum256(sub("sha256"))
 		return h[:]
+	case node["h2c"] != nil:
+		return hashToCurve(sub("h2c")).SerializeCompressed()
 	case node["pt"] != nil:
 		k := scalarOf(str("pt"))
 		return secp256k1.NewPrivateKey(k).PubKey().SerializeCompressed()
@@ -462,7 +464,9 @@ func TempDir() string {
 }
 
 // ---------------------------------------------------------------- database helpers (real SQLite)
-func SqlDB(dir string) *sql.DB { panic("verifrt.SqlDB is model-only; native harnesses open the real database") }
+func SqlDB(dir string) *sql.DB {
+	panic("verifrt.SqlDB is model-only; native harnesses open the real database")
+}
 
 type colinfo struct {
 	name, typ string
@@ -550,12 +554,18 @@ func SqlSymRows(db *sql.DB, table string, n int) {
 	}
 }
 
-type rowCell struct{ s string; u uint64; b bool }
+type rowCell struct {
+	s string
+	u uint64
+	b bool
+}
 
 var symRows = map[string]map[string]rowCell{}
 var symPresent = map[string]bool{}
 
-func SqlRowPresent(db *sql.DB, table string, i int) bool { return symPresent[fmt.Sprintf("%s.%d", table, i)] }
+func SqlRowPresent(db *sql.DB, table string, i int) bool {
+	return symPresent[fmt.Sprintf("%s.%d", table, i)]
+}
 func SqlRowStr(db *sql.DB, table string, i int, col string) string {
 	return symRows[fmt.Sprintf("%s.%d", table, i)][col].s
 }
@@ -563,8 +573,8 @@ func SqlRowU64(db *sql.DB, table string, i int, col string) uint64 {
 	return symRows[fmt.Sprintf("%s.%d", table, i)][col].u
 }
 
-func PickStr(idx uint64, options ...string) string { return options[idx] }
-func PickU64(idx uint64, options ...uint64) uint64 { return options[idx] }
+func PickStr(idx uint64, options ...string) string   { return options[idx] }
+func PickU64(idx uint64, options ...uint64) uint64   { return options[idx] }
 func PickBytes(idx uint64, options ...[]byte) []byte { return options[idx] }
 func PickPriv(idx uint64, options ...*secp256k1.PrivateKey) *secp256k1.PrivateKey {
 	return options[idx]
